@@ -40,7 +40,8 @@ def replay(rec, ctx):
     viol = []
 
     def bad(what, detail):
-        viol.append({"sig": f"{m}:{what}", "detail": f"{detail} | dens={rec['dens']} temp={rec['temp']} ne={rec['ne']} te={rec['te']}"})
+        viol.append({"sig": f"{m}:{what}" + ("" if rec.get("prior", "none") == "none" else f"@after-other-{rec['prior']}"), "detail": f"{detail} | dens={rec['dens']} temp={rec['temp']} ne={rec['ne']} te={rec['te']}"})
+    EC.prior_phase(rec, rates, model, lambda: model.emission(Point3D(0.1, 0.2, 0.3), Vector3D(1, 0, 0), Spectrum(LO, HI, BINS)), calls, ad, pl)
     sp = Spectrum(LO, HI, BINS)
     try:
         out = model.emission(Point3D(0.1, 0.2, 0.3), Vector3D(1, 0, 0), sp)
@@ -124,7 +125,7 @@ def run_models(v, mod, models, fn="replay"):
                 obs[x["observation"]] = obs.get(x["observation"], 0) + 1
             else:
                 v.violation(x["sig"], x["detail"], dict(r, rates=rates))
-    v.add_cases(len(cases), keys=[json.dumps([r["model"], r["dens"], r["temp"], r["ne"], r["te"], r["nb"]], sort_keys=True) for r in cases])
+    v.add_cases(len(cases), keys=[json.dumps([r["model"], r.get("prior"), r["dens"], r["temp"], r["ne"], r["te"], r["nb"]], sort_keys=True) for r in cases])
     v.sample({k: cases[len(cases) // 2][k] for k in ("model", "dens", "temp", "ne", "te", "total", "raises")})
     v.notes["not_asserted"] = obs
     return cases
